@@ -122,58 +122,72 @@ structure PS where
   rexp : Bool := false       -- range_expected
   deriving Repr
 
-/-- the `while (1)` loop of `lys_compile_type_range`; result: `parts` and the final `parts_done` -/
+/-- outcome of one iteration of the `while (1)` loop -/
+inductive StepR
+  | done (r : List Part × Nat)     -- `break`: the parts and the final `parts_done`
+  | next (e : Bytes) (s : PS)      -- go on with the rest of the argument
+  | fail (e : RErr)
+
+/-- one iteration of the `while (1)` loop of `lys_compile_type_range` at `expr = e` -/
+def step (fx : RFix) (t : RType) (base : Option (List Part)) (e : Bytes) (s : PS) : StepR :=
+  match e with
+  | [] =>
+    if s.rexp then .fail .valid
+    else if s.rparts.isEmpty || s.done == s.rparts.length then .fail .valid
+    else .done (s.rparts.reverse, s.done + 1)
+  | c :: rest =>
+    if isSpace c then .next rest s
+    else if startsWith e kwMin then
+      if !s.rparts.isEmpty then .fail .valid
+      else match minmax t false 0 true base none with
+        | .error er => .fail er
+        | .ok (x, _) => .next (e.drop 3) { s with rparts := [⟨x, x⟩] }
+    else if c == chBar then
+      if s.rparts.isEmpty || s.rexp || (fx.f30 && s.done == s.rparts.length) then .fail .valid
+      else .next rest { s with done := s.done + 1 }
+    else if startsWith e kwDots then
+      if s.rparts.isEmpty || s.rparts.length == s.done then .fail .valid
+      else .next ((e.drop 2).dropWhile isSpace) { s with rexp := true }
+    else if isDigit c || c == chMinus || c == chPlus then
+      if s.rexp then
+        match s.rparts with
+        | [] => .fail .int
+        | p :: ps =>
+          match minmax t true p.min false none (some e) with
+          | .error er => .fail er
+          | .ok (x, len) => .next (e.drop len) { s with rparts := { p with max := x } :: ps, rexp := false }
+      else if fx.f51 && !s.rparts.isEmpty && s.done != s.rparts.length then .fail .valid
+      else
+        let prev : Int := if s.done ≠ 0 then (s.rparts.head?.map (·.max)).getD 0 else 0
+        match minmax t false prev (s.done == 0) none (some e) with
+        | .error er => .fail er
+        | .ok (x, len) => .next (e.drop len) { s with rparts := ⟨x, x⟩ :: s.rparts }
+    else if startsWith e kwMax then
+      if !((e.drop 3).dropWhile isSpace).isEmpty then .fail .valid
+      else if s.rexp then
+        match s.rparts with
+        | [] => .fail .int
+        | p :: ps =>
+          match minmax t true p.min false base none with
+          | .error er => .fail er
+          | .ok (x, _) => .next [] { s with rparts := { p with max := x } :: ps, rexp := false }
+      else if fx.f51 && !s.rparts.isEmpty && s.done != s.rparts.length then .fail .valid
+      else
+        let prev : Int := if s.done ≠ 0 then (s.rparts.head?.map (·.max)).getD 0 else 0
+        match minmax t true prev (s.done == 0) base none with
+        | .error er => .fail er
+        | .ok (x, _) => .next [] { s with rparts := ⟨x, x⟩ :: s.rparts }
+    else .fail .valid
+
+/-- the `while (1)` loop of `lys_compile_type_range`; result: `parts` and the final `parts_done`. Every iteration but
+the last consumes at least one byte, fuel = length + 1 suffices. -/
 def loop (fx : RFix) (t : RType) (base : Option (List Part)) : Nat → Bytes → PS → Except RErr (List Part × Nat)
   | 0, _, _ => .error .int
   | fuel + 1, e, s =>
-    match e with
-    | [] =>
-      if s.rexp then .error .valid
-      else if s.rparts.isEmpty || s.done == s.rparts.length then .error .valid
-      else .ok (s.rparts.reverse, s.done + 1)
-    | c :: rest =>
-      if isSpace c then loop fx t base fuel rest s
-      else if startsWith e kwMin then
-        if !s.rparts.isEmpty then .error .valid
-        else match minmax t false 0 true base none with
-          | .error er => .error er
-          | .ok (x, _) => loop fx t base fuel (e.drop 3) { s with rparts := [⟨x, x⟩] }
-      else if c == chBar then
-        if s.rparts.isEmpty || s.rexp || (fx.f30 && s.done == s.rparts.length) then .error .valid
-        else loop fx t base fuel rest { s with done := s.done + 1 }
-      else if startsWith e kwDots then
-        if s.rparts.isEmpty || s.rparts.length == s.done then .error .valid
-        else loop fx t base fuel ((e.drop 2).dropWhile isSpace) { s with rexp := true }
-      else if isDigit c || c == chMinus || c == chPlus then
-        if s.rexp then
-          match s.rparts with
-          | [] => .error .int
-          | p :: ps =>
-            match minmax t true p.min false none (some e) with
-            | .error er => .error er
-            | .ok (x, len) => loop fx t base fuel (e.drop len) { s with rparts := { p with max := x } :: ps, rexp := false }
-        else if fx.f51 && !s.rparts.isEmpty && s.done != s.rparts.length then .error .valid
-        else
-          let prev : Int := if s.done ≠ 0 then (s.rparts.head?.map (·.max)).getD 0 else 0
-          match minmax t false prev (s.done == 0) none (some e) with
-          | .error er => .error er
-          | .ok (x, len) => loop fx t base fuel (e.drop len) { s with rparts := ⟨x, x⟩ :: s.rparts }
-      else if startsWith e kwMax then
-        if !((e.drop 3).dropWhile isSpace).isEmpty then .error .valid
-        else if s.rexp then
-          match s.rparts with
-          | [] => .error .int
-          | p :: ps =>
-            match minmax t true p.min false base none with
-            | .error er => .error er
-            | .ok (x, _) => loop fx t base fuel [] { s with rparts := { p with max := x } :: ps, rexp := false }
-        else if fx.f51 && !s.rparts.isEmpty && s.done != s.rparts.length then .error .valid
-        else
-          let prev : Int := if s.done ≠ 0 then (s.rparts.head?.map (·.max)).getD 0 else 0
-          match minmax t true prev (s.done == 0) base none with
-          | .error er => .error er
-          | .ok (x, _) => loop fx t base fuel [] { s with rparts := ⟨x, x⟩ :: s.rparts }
-      else .error .valid
+    match step fx t base e s with
+    | .done r => .ok r
+    | .fail er => .error er
+    | .next e' s' => loop fx t base fuel e' s'
 
 /-- the `for (u = v = 0; u < parts_done && v < COUNT(base); ++u)` walk. `--u; ++v; continue` followed by the loop's
 `++u` leaves `u` unchanged (for `u = 0` through the unsigned wrap). `true` = no `baseerror`. -/
